@@ -35,8 +35,8 @@ type Engine struct {
 	// Ext switches on the opt-in extensions used by C20 (range over a map as a havoc'ed key per
 	// iteration, events for delete(map, key) and for append(slice, other...)). Off by default:
 	// the engine then behaves exactly as before.
-	Ext    bool
-	apps   map[symID]*appInfo
+	Ext  bool
+	apps map[symID]*appInfo
 	// rfApps: sqrt applications whose argument is a rational function (canonical reuse)
 	rfApps   map[string][]symID
 	positive []*Poly
@@ -1730,7 +1730,11 @@ func (f *frame) builtin(name string, args []Val, call *ssa.Call) Val {
 		}
 		for i, a := range args {
 			if so, ok := a.(*SliceObj); ok && i == 0 {
-				f.r.events = append(f.r.events, Event{Kind: EvBulkWrite, Slice: so, Callee: name, Loop: f.r.curLoop(), Pos: call.Pos(), In: f.fn})
+				ev := Event{Kind: EvBulkWrite, Slice: so, Callee: name, Loop: f.r.curLoop(), Pos: call.Pos(), In: f.fn}
+				if e.Ext {
+					ev.Args = args // (Ext) copy(dst, src): clients that recognise exact copies need the source
+				}
+				f.r.events = append(f.r.events, ev)
 			}
 		}
 		if name == "copy" {
